@@ -506,7 +506,9 @@ class H2Server:
                     except h2.exceptions.ProtocolError:
                         self.pending_out.pop(sid, None)
                         break
-                    n = min(win, self.conn.max_outbound_frame_size, len(data) - pos)
+                    pad = self.script.get("pad")
+                    overhead = 0 if pad is None else pad + 1
+                    n = min(win - overhead, self.conn.max_outbound_frame_size - overhead, len(data) - pos)
                     if chunk:
                         n = min(n, chunk)
                     trunc = p["truncate"]
@@ -527,8 +529,7 @@ class H2Server:
                     if n <= 0 and pos < len(data):
                         break
                     end = pos + n >= len(data) and not p["resp"].trailers
-                    self.conn.send_data(sid, data[pos:pos + n], end_stream=end,
-                                        pad_length=self.script.get("pad"))
+                    self.conn.send_data(sid, data[pos:pos + n], end_stream=end, pad_length=pad)
                     pos += n
                     p["pos"] = pos
                     progress = True
